@@ -574,6 +574,10 @@ def c18(tier, hook=None):
                     for where in ((False, True) if generic else (False,)):
                         cases.append((named, ti, generic, entry, where))
     mods = [(i, rf.deref_module(i, *c)) for i, c in enumerate(cases)]
+    # generic single-field structs whose field type mentions `Self`
+    for entry in ("attr", "derive"):
+        cases.append(("self_in_field_type", entry))
+        mods.append((len(cases) - 1, rf.deref_self_module(len(cases) - 1, entry)))
     mods = T(mods)
     res, failed = run_modules(mods, "c18")
     events, emeta = [], []
